@@ -108,6 +108,17 @@ fn has_dir_vs_sibling_below_slash(c: &Case) -> bool {
     })
 }
 
+/// some expansion of `q` by git's lookup rules lies below a name that is a loose ref (a file), so opening it yields ENOTDIR
+fn a_rule_candidate_is_below_a_loose_ref(c: &Case, q: &str) -> bool {
+    let loose: Vec<&str> = c.refs.iter().filter(|(_, p)| *p != 1).map(|(i, _)| UNIVERSE[*i as usize]).collect();
+    ["{}", "refs/{}", "refs/tags/{}", "refs/heads/{}", "refs/remotes/{}", "refs/remotes/{}/HEAD"]
+        .iter()
+        .any(|rule| {
+            let full = rule.replace("{}", q);
+            loose.iter().any(|l| full.starts_with(&format!("{l}/")))
+        })
+}
+
 fn listing_of(it: gix_ref::file::iter::LooseThenPacked<'_, '_>) -> Result<Listing, String> {
     let mut out = Vec::new();
     for r in it {
@@ -218,9 +229,9 @@ fn eval(c: &Case, template_objects: &Path) -> Verdict {
         },
         Err(e) => return bad("iter-error", format!("all(): {e}")),
     };
-    let mut first_failure: Option<String> = None;
+    let mut failures: Vec<String> = Vec::new();
     if let Err(m) = compare_listing("iter().all()", &got_all, &want_all, c) {
-        first_failure.get_or_insert(m);
+        failures.push(m);
     }
     for p in PREFIXES {
         let want: Listing = want_all.iter().filter(|(n, _)| n.starts_with(format!("{p}/").as_bytes())).cloned().collect();
@@ -232,7 +243,7 @@ fn eval(c: &Case, template_objects: &Path) -> Verdict {
             Err(e) => return bad("iter-error", format!("prefixed({p}): {e}")),
         };
         if let Err(m) = compare_listing(&format!("iter().prefixed({p:?})"), &got, &want, c) {
-            first_failure.get_or_insert(m);
+            failures.push(m);
         }
     }
     // lookups are reported before iteration problems only if iteration is fine; both are always evaluated
@@ -241,7 +252,11 @@ fn eval(c: &Case, template_objects: &Path) -> Verdict {
     for (q, want) in QUERIES.iter().zip(&want_find) {
         let got = match store.try_find(*q) {
             Ok(r) => r,
-            Err(e) => return bad("find-error", format!("try_find({q:?}): {e}")),
+            Err(e) => {
+                let class = if a_rule_candidate_is_below_a_loose_ref(c, q) { "find-error-parent-is-file" } else { "find-error" };
+                failures.push(format!("{class}: try_find({q:?}): {e}; git resolves it to {want:?}"));
+                continue;
+            }
         };
         let got = match got {
             None => None,
@@ -251,13 +266,25 @@ fn eval(c: &Case, template_objects: &Path) -> Verdict {
             },
         };
         if got != *want {
+            let uppercase = q.bytes().all(|b| b.is_ascii_uppercase() || b == b'_');
             let class = match (&got, want) {
+                (None, Some((n, _))) if uppercase && n.starts_with(b"refs/") => "find-missed-uppercase-short-name",
+                (None, Some((n, _)))
+                    if n.starts_with(b"refs/remotes/")
+                        && n.ends_with(b"/HEAD")
+                        && n.as_bstr() != q.as_bytes().as_bstr()
+                        && !q.ends_with("HEAD")
+                        && c.refs.iter().any(|(i, p)| UNIVERSE[*i as usize].as_bytes() == n.as_slice() && *p == 1) =>
+                {
+                    "find-missed-packed-remote-head"
+                }
                 (None, Some(_)) => "find-missed",
                 (Some(_), None) => "find-unexpected",
                 (Some(g), Some(w)) if g.0 != w.0 => "find-other-ref",
                 _ => "find-stale-value",
             };
-            return bad(class, format!("try_find({q:?}) = {got:?}, git resolves it to {want:?}"));
+            failures.push(format!("{class}: try_find({q:?}) = {got:?}, git resolves it to {want:?}"));
+            continue;
         }
         if let Some((n, _)) = want {
             found += 1;
@@ -266,8 +293,11 @@ fn eval(c: &Case, template_objects: &Path) -> Verdict {
             }
         }
     }
-    if let Some(m) = first_failure {
-        return Err(m);
+    // report a failure of an unknown shape first, so that known shapes cannot hide it
+    const KNOWN_SHAPES: [&str; 4] =
+        ["loose-dir-order:", "find-error-parent-is-file:", "find-missed-uppercase-short-name:", "find-missed-packed-remote-head:"];
+    if let Some(m) = failures.iter().find(|m| !KNOWN_SHAPES.iter().any(|k| m.starts_with(k))).or(failures.first()) {
+        return Err(m.clone());
     }
     let _ = found;
     if c.refs.is_empty() {
@@ -303,7 +333,7 @@ pub fn run(run: &'static Run) {
         "universe {UNIVERSE:?}; every subset of <= {k_all} names without directory/file conflicts x placement per ref {{loose, packed, loose + stale packed value}}; \
          observations: iter().all(), iter().prefixed(refs/heads|refs/tags|refs/remotes), try_find for {} short/partial/full names ({QUERIES:?}). \
          oracle: byte-sorted map with loose precedence + git's ref_rev_parse_rules; additionally `git for-each-ref` and `git cat-file --batch-check` on every store of \
-         <= 1 refs (all placements) and 2 refs (quick: placements {{loose,packed}}; thorough: all placements, and 3 refs with placements {{loose,packed}}). \
+         <= 1 refs (all placements) and 2 refs (quick: the two mixed placements loose+packed / packed+loose; thorough: all placements). \
          non-trivial = store holds >= 2 refs",
         QUERIES.len()
     ));
@@ -344,26 +374,6 @@ pub fn run(run: &'static Run) {
     let objects_ref = &objects;
 
     run.sub_with(
-        "git",
-        vkit::Opts::default().chunk(64),
-        |emit| {
-            for k in 0..=(if quick { 2 } else { 3 }) {
-                enumerate::subsets(&idxs, k, k, |names| {
-                    if has_df_conflict(names) {
-                        return;
-                    }
-                    let all: &[u8] = &[0, 1, 2];
-                    let two: &[u8] = &[0, 1];
-                    let choices = if k <= 1 || (k == 2 && !quick) { all } else { two };
-                    placements(k, choices, |p| emit(Case { refs: names.iter().copied().zip(p.iter().copied()).collect(), git: true }));
-                });
-            }
-        },
-        |c: &Case| eval(c, objects_ref),
-    );
-    run.cov("oracle_stores_checked_by_git_binary", run.sub_evaluations("git"));
-
-    run.sub_with(
         "model",
         vkit::Opts::default().chunk(2048),
         |emit| {
@@ -378,6 +388,32 @@ pub fn run(run: &'static Run) {
         },
         |c: &Case| eval(c, objects_ref),
     );
+
+    run.sub_with(
+        "git",
+        vkit::Opts::default().chunk(64),
+        |emit| {
+            for k in 0..=2usize {
+                enumerate::subsets(&idxs, k, k, |names| {
+                    if has_df_conflict(names) {
+                        return;
+                    }
+                    let all: &[u8] = &[0, 1, 2];
+                    let two: &[u8] = &[0, 1];
+                    let choices = if k <= 1 || (k == 2 && !quick) { all } else { two };
+                    placements(k, choices, |p| {
+                        // quick: pairs only in the two mixed placements (loose+packed, packed+loose)
+                        if quick && k == 2 && p[0] == p[1] {
+                            return;
+                        }
+                        emit(Case { refs: names.iter().copied().zip(p.iter().copied()).collect(), git: true })
+                    });
+                });
+            }
+        },
+        |c: &Case| eval(c, objects_ref),
+    );
+    run.cov("oracle_stores_checked_by_git_binary", run.sub_evaluations("git"));
 
     run.require("mixed stores with shadowed stale packed values were explored", run.outcome_count("mixed/stale-packed-shadowed/short-names-resolved") > 0);
     run.require("loose-only and packed-only stores were explored", run.outcome_count("loose-only/short-names-resolved") > 0 && run.outcome_count("packed-only/short-names-resolved") > 0);
